@@ -70,7 +70,8 @@ func (p *Program) lemmaObligations(prop string) (obls []*Obligation, errs []stri
 			continue
 		}
 		bad := p.tableWriters(tb)
-		o := &Obligation{Name: "table." + tb.Name + "#immutable#1", Kind: "table-immutable", Func: "table " + tb.Name, PC: True, Goal: True, Pos: tb.Pos, Desc: "no instruction in the repository writes the table after initialisation (syntactic scan)", Props: tb.Props, Verdict: "unsat", Solver: "scan"}
+		bad = append(bad, p.tableAliasWriters(tb)...)
+		o := &Obligation{Name: "table." + tb.Name + "#immutable#1", Kind: "table-immutable", Func: "table " + tb.Name, PC: True, Goal: True, Pos: tb.Pos, Desc: "no instruction in the repository writes the table after initialisation; no map of a map table's type is updated unless made locally; rows of a nested table never leave the function that reads them (syntactic scan)", Props: tb.Props, Verdict: "unsat", Solver: "scan"}
 		if len(bad) > 0 {
 			o.Verdict = "sat"
 			o.Detail = fmt.Sprint(bad)
